@@ -139,48 +139,198 @@ def _py_dict1(d, name_key, child_key, memo):
 
 
 def _ctype(case, k):
-    return (case.get("ctypes") or {}).get(k, "int" if k == "age" else "str")
+    return (case.get("ctypes") or {}).get(k, "int" if k == "age" else "bool" if k == "flag" else "str")
+
+
+class ObsError(Exception):
+    """something the property cares about and the Coq case type has no field for (node classes, the returned node
+    being the root, parent/children links, repeatability, caller's input unchanged); reported by the driver as a
+    disagreement with the text of this exception"""
+
+
+def _node_types(m):
+    if "VNode" not in m:
+        from bigtree.node.node import Node
+        from bigtree.node.binarynode import BinaryNode
+
+        class VNode(Node):
+            pass
+
+        class VBinary(BinaryNode):
+            pass
+        m.update(Node=Node, BinaryNode=BinaryNode, VNode=VNode, VBinary=VBinary)
+    return m
+
+
+def _check_result(root, cls):
+    """the returned node is the root of a consistently linked tree whose nodes all have exactly the class asked for"""
+    if root.parent is not None:
+        raise ObsError("the returned node is not the root (it has a parent)")
+    todo = [root]
+    seen = 0
+    while todo:
+        n = todo.pop()
+        seen += 1
+        if seen > 500:
+            raise ObsError("result too large")
+        if type(n) is not cls:
+            raise ObsError(f"node {n.node_name!r} has class {type(n).__name__}, expected {cls.__name__}")
+        for c in n.children:
+            if c is None:
+                continue
+            if c.parent is not n:
+                raise ObsError(f"child {c.node_name!r} of {n.node_name!r} does not point back to its parent")
+            todo.append(c)
+
+
+def _twice(build, conv, cls):
+    """call, observe, call again with the very same argument objects: same outcome"""
+    def one():
+        def conv2(r):
+            _check_result(r, cls)
+            return conv(r)
+        return _call(build, conv2)
+    first = one()
+    if first.get("err") == 13:          # RecursionError: slow, not repeated
+        return first
+    second = one()
+    if first != second:
+        raise ObsError(f"a second call with the same argument objects gives a different result: {first} / {second}")
+    return first
+
+
+def _heap_key(x):
+    return type(x).__name__ + ":" + repr(x)
+
+
+def _heap_codes(l):
+    """numbers of a heap list -> small integer codes (equal type and value = equal code): the model only moves the
+    elements around, so ints, floats, 0 / 0.0 / negative values are all just labels"""
+    codes = {}
+    for x in l:
+        codes.setdefault(_heap_key(x), len(codes))
+    return codes
 
 
 def run_impl(prop, case):
-    m = _mods()
+    m = _node_types(_mods())
     kind = case["kind"]
+    custom = case.get("node_type") == "custom"
     if kind == "rel":
+        import copy
         pd, pl, C = m["pd"], m["pl"], m["construct"]
         rows, cols, ad = case["rows"], case["cols"], case["allow_dup"]
+        cls = m["VNode"] if custom else m["Node"]
+        kw = {"node_type": cls} if custom else {}
+        if ad or case.get("ad_explicit"):
+            kw["allow_duplicates"] = ad
+        spec = case.get("colspec") or {}
+        cn, pn = spec.get("child", "child"), spec.get("parent", "parent")
+        order = spec.get("order") or ([cn, pn] + cols)
+        fkw = dict(kw)
+        if spec.get("explicit"):
+            fkw.update(child_col=cn, parent_col=pn)
+        if case.get("attr_sel"):
+            fkw["attribute_cols"] = list(case["attr_sel"])
+        import numpy as np
+        nulls = case.get("nulls") or []
+        NULL = {"none": None, "nan": np.nan, "na": pd.NA}
+
+        def parent_of(i, polars=False):
+            p = rows[i][1]
+            if p is not None or polars:
+                return p
+            return NULL[nulls[i] if i < len(nulls) else "none"]      # "no parent" spelled None / NaN / pd.NA
+        cell = lambda i, k, polars=False: rows[i][0] if k == cn else parent_of(i, polars) if k == pn \
+            else rows[i][2].get(k)
         obs = {}
         for entry in case["entries"]:
             if entry == "list":
-                rel = [(p, c) for c, p, _ in rows]
-                obs[entry] = _call(lambda: C.list_to_tree_by_relation(rel, allow_duplicates=ad), _obs_tree)
+                prs = [(parent_of(i), rows[i][0]) for i in range(len(rows))]
+                mk = {"tuples": lambda: list(prs), "lists": lambda: [list(x) for x in prs],
+                      "tuple": lambda: tuple(prs)}[case.get("relform", "tuples")]
+                rel = mk()
+                before = copy.deepcopy(rel)
+                obs[entry] = _twice(lambda: C.list_to_tree_by_relation(rel, **kw), _obs_tree, cls)
+                if rel != before or type(rel) is not type(before):
+                    raise ObsError("list_to_tree_by_relation changed the caller's relation list")
             elif entry == "pandas":
-                # object columns: an empty parent stays None (under pandas 3 the default str dtype turns it into
-                # NaN, which this version of bigtree does not recognise as "no parent")
-                data = [[c, p] + [a.get(k) for k in cols] for c, p, a in rows]
-                df = pd.DataFrame(data, columns=["child", "parent"] + cols, dtype=object)
+                # object columns keep None / NaN / pd.NA as given; pandas' own inference turns them all into NaN
+                data = [[cell(i, k) for k in order] for i in range(len(rows))]
+                if case.get("dtype") == "default":
+                    df = pd.DataFrame(data, columns=order)
+                else:
+                    df = pd.DataFrame(data, columns=order, dtype=object)
                 if case.get("index") is not None:
                     df.index = list(case["index"])      # non-default row labels (repeated / shuffled / strings)
-                obs[entry] = _call(lambda: C.dataframe_to_tree_by_relation(df, allow_duplicates=ad), _obs_tree)
+                before = df.copy(deep=True)
+                obs[entry] = _twice(lambda: C.dataframe_to_tree_by_relation(df, **fkw), _obs_tree, cls)
+                if not (list(df.columns) == list(before.columns) and list(df.index) == list(before.index)
+                        and df.equals(before) and list(df.dtypes) == list(before.dtypes)):
+                    raise ObsError("dataframe_to_tree_by_relation changed the caller's DataFrame")
             else:
-                schema = {"child": pl.Utf8, "parent": pl.Utf8}
-                for k in cols:
-                    schema[k] = pl.Int64 if _ctype(case, k) == "int" else pl.Utf8
-                data = [[c, p] + [a.get(k) for k in cols] for c, p, a in rows]
+                schema = {}
+                for k in order:
+                    schema[k] = pl.Utf8 if k in (cn, pn) else \
+                        {"int": pl.Int64, "bool": pl.Boolean, "str": pl.Utf8}[_ctype(case, k)]
+                data = [[cell(i, k, True) for k in order] for i in range(len(rows))]
                 df = pl.DataFrame(data, schema=schema, orient="row")
-                obs[entry] = _call(lambda: C.polars_to_tree_by_relation(df, allow_duplicates=ad), _obs_tree)
+                before = df.clone()
+                obs[entry] = _twice(lambda: C.polars_to_tree_by_relation(df, **fkw), _obs_tree, cls)
+                if not (df.columns == before.columns and df.equals(before)):
+                    raise ObsError("polars_to_tree_by_relation changed the caller's DataFrame")
         return obs
     if kind == "nest":
         C = m["construct"]
         import copy
+        cls = m["VNode"] if custom else m["Node"]
+        kw = {"node_type": cls} if custom else {}
+        if case["name_key"] != "name" or case.get("keys_explicit"):
+            kw["name_key"] = case["name_key"]
+        if case["child_key"] != "children" or case.get("keys_explicit"):
+            kw["child_key"] = case["child_key"]
         d = _py_dict(case["dict"], case["name_key"], case["child_key"])
         before = copy.deepcopy(d)
-        build = lambda: C.nested_dict_to_tree(d, name_key=case["name_key"], child_key=case["child_key"])
-        first = _call(build, _obs_tree)
+
+        def conv(r):
+            _check_result(r, cls)
+            return _obs_tree(r)
+        build = lambda: C.nested_dict_to_tree(d, **kw)
+        first = _call(build, conv)
         unchanged1 = (d == before)
-        second = _call(build, _obs_tree)        # the very same input object once more
+        second = _call(build, conv)        # the very same input object once more
         return {"first": first, "second": second, "unchanged": bool(unchanged1 and d == before)}
     if kind == "heap":
-        return _call(lambda: m["l2b"](list(case["list"])), _obs_bin)
+        import copy
+        cls = m["VBinary"] if custom else m["BinaryNode"]
+        kw = {"node_type": cls} if custom else {}
+        vals = [float(x[1]) if isinstance(x, list) else x for x in case["list"]]     # ["f", "2.5"] = a float
+        arg = tuple(vals) if case.get("as_tuple") else list(vals)
+        before = copy.deepcopy(arg)
+        codes = _heap_codes(vals)
+        by_name = {}
+        for x in vals:
+            by_name.setdefault(str(x), x)
+
+        def conv(root):
+            def go(n, depth):
+                if n is None:
+                    return None
+                if depth > 50:
+                    raise ObsError("binary tree too deep")
+                if n.name not in by_name:
+                    raise ObsError(f"node name {n.name!r} is not str() of an element of the list")
+                x = by_name[n.name]
+                if type(n.val) is not int or n.val != int(x):
+                    raise ObsError(f"node {n.name!r} has val {n.val!r}, expected int({x!r})")
+                if len(n.children) != 2:
+                    raise ObsError("a BinaryNode without exactly two child slots")
+                return [codes[_heap_key(x)], go(n.left, depth + 1), go(n.right, depth + 1)]
+            return go(root, 0)
+        out = _twice(lambda: m["l2b"](arg, **kw), conv, cls)
+        if arg != before or [type(x) for x in arg] != [type(x) for x in before]:
+            raise ObsError("list_to_binarytree changed the caller's list")
+        return out
     raise ValueError(kind)
 
 
@@ -248,7 +398,7 @@ def _cnd(d):
 def emit(prop, case, obs):
     kind = case["kind"]
     if kind == "rel":
-        rows = clist(_crow(r, case["cols"]) for r in case["rows"])
+        rows = clist(_crow(r, case.get("attr_sel") or case["cols"]) for r in case["rows"])
         outs = clist(cpair(str(ENTRY_CODE[e]), _cout_tree(obs[e])) for e in case["entries"])
         return f"CRel {cbool(case['allow_dup'])} {rows} {outs}"
     if kind == "nest":
@@ -256,7 +406,9 @@ def emit(prop, case, obs):
                 f"({_cout_tree(obs['second'])}) {cbool(obs['unchanged'])}")
     if kind == "heap":
         o = f"Acc ({_cbin(obs['ok'])})" if "ok" in obs else f"Rej {int(obs['err'])}"
-        return f"CHeap {clist(cZ(x) for x in case['list'])} ({o})"
+        vals = [float(x[1]) if isinstance(x, list) else x for x in case["list"]]
+        codes = _heap_codes(vals)
+        return f"CHeap {clist(cZ(codes[_heap_key(x)]) for x in vals)} ({o})"
     raise ValueError(kind)
 
 
@@ -337,9 +489,11 @@ def gen_attrs(rng, n, cols):
             if rng.random() < 0.3:
                 a[k] = None
             elif k == "age":
-                a[k] = rng.randint(-3, 99)
+                a[k] = rng.choice([0, 0, rng.randint(-3, 99), rng.randint(-3, 99)])
+            elif k == "flag":
+                a[k] = rng.random() < 0.5
             else:
-                a[k] = rng.choice(["t", "u", "", "x y", "7"])
+                a[k] = rng.choice(["t", "u", "", "", "x y", "7", "0"])
         out.append(a)
     return out
 
@@ -366,10 +520,7 @@ def order_rows(rng, rows):
 
 
 def entries_for(rows, rng=None):
-    if any(p is None for _, p, _ in rows):
-        # list_to_tree_by_relation builds its own DataFrame; under pandas 3 an empty parent becomes NaN there and
-        # the unchanged bigtree refuses every such input (environment, see rule()) - entry point left out
-        return ["pandas", "polars"]
+    # (before fix F12 rows with an empty parent could not go through list_to_tree_by_relation under pandas 3)
     return ["list", "pandas", "polars"]
 
 
@@ -421,7 +572,7 @@ def gen_rel_valid(rng, shape=None, nmax=10):
     pool_name = rng.choice(["distinct", "distinct", "affix", "special"])
     leafdup = rng.random() < 0.4
     names = gen_names(rng, par, pool_name, leafdup)
-    cols = rng.choice([[], ["age"], ["age", "tag"], ["age", "tag"]])
+    cols = rng.choice([[], ["age"], ["age", "tag"], ["age", "tag"], ["flag"], ["age", "flag", "tag"]])
     attrs = gen_attrs(rng, len(par), cols)
     rows = tree_rows(par, names, attrs, rng.random() < 0.45)
     return par, names, cols, attrs, rows, f"{shape}/{pool_name}{'+leafdup' if leafdup else ''}"
@@ -470,7 +621,7 @@ def _finish_rel(rng, lab, case):
     if case["cols"] and rng.random() < 0.4:
         new = rng.sample(HEADERS, len(case["cols"]))
         ren = dict(zip(case["cols"], new))
-        case["ctypes"] = {ren[k]: ("int" if k == "age" else "str") for k in case["cols"]}
+        case["ctypes"] = {ren[k]: ("int" if k == "age" else "bool" if k == "flag" else "str") for k in case["cols"]}
         case["rows"] = [[c, p, {ren[k]: v for k, v in a.items()}] for c, p, a in case["rows"]]
         case["cols"] = new
         lab += "+headers"
@@ -478,6 +629,38 @@ def _finish_rel(rng, lab, case):
         case["index"] = _gen_index(rng, case["rows"])
         if case["index"] is not None:
             lab += "+index"
+    # argument forms and options (the model is the same function of the rows in all of them)
+    case["relform"] = rng.choice(["tuples", "tuples", "lists", "tuple"])
+    if rng.random() < 0.3:
+        case["node_type"] = "custom"
+    if rng.random() < 0.3:
+        case["ad_explicit"] = True                      # allow_duplicates=False passed explicitly
+    if not case["allow_dup"] and lab.startswith("rel/valid") and rng.random() < 0.12:
+        case["allow_dup"] = True                        # a valid relation list gives the same tree
+        lab += "+allowdup"
+    if case["rows"] and rng.random() < 0.3:
+        case["dtype"] = "default"                       # pandas' own dtype inference
+    if any(p is None for _, p, _ in case["rows"]) and rng.random() < 0.6:
+        case["nulls"] = [rng.choice(["none", "nan", "nan", "na"]) for _ in case["rows"]]
+        lab += "+nullspelling"
+    if rng.random() < 0.45:
+        cn, pn = rng.choice([("child", "parent"), ("node", "up"), ("c", "p"), ("p", "c"), ("id", "pid"), ("parent", "child")])
+        spec = {"child": cn, "parent": pn, "explicit": True}
+        order = [cn, pn] + list(case["cols"])
+        r = rng.random()
+        if r < 0.6:
+            rng.shuffle(order)                          # unusual column order, columns named explicitly
+        elif r < 0.8 and (cn, pn) != ("parent", "child"):
+            spec["explicit"] = False                    # first column = child, second = parent, by position
+        if cn == "parent":
+            spec["explicit"] = True
+        spec["order"] = order
+        case["colspec"] = spec
+        lab += "+cols"
+        if len(case["cols"]) >= 2 and rng.random() < 0.5:
+            k = rng.randint(1, len(case["cols"]) - 1)
+            case["attr_sel"] = rng.sample(case["cols"], k)      # the other attribute columns must be ignored
+            lab += "+attrsel"
     return lab, case
 
 
@@ -523,7 +706,7 @@ def _gen_rel(rng, force=None):
          "duprow_attr", "cycle_unreach", "selfloop", "allowdup", "two_null", "dup_null", "emptyname"])
     ad = False
     rows = order_rows(rng, rows)
-    fresh = lambda k: {c: (k if c == "age" else "z") for c in cols}
+    fresh = lambda k: {c: (k if c == "age" else (k % 2 == 0) if c == "flag" else "z") for c in cols}
     if defect == "noroot":
         rows = [r for r in rows if r[1] is not None]
         x = rng.randrange(1, n)
@@ -649,7 +832,8 @@ def gen_nest(rng, force_malformed=None):
         entries = [[name_key, names[i]]]
         for k in ATTR_KEYS:
             if rng.random() < 0.4:
-                v = rng.randint(0, 99) if k != "tag" else rng.choice(["t", "u", "x y"])
+                v = rng.choice([0, rng.randint(0, 99)]) if k == "age" else \
+                    rng.choice(["t", "u", "x y", "", "0"]) if k == "tag" else rng.choice([False, True, 0, 1])
                 if rng.random() < 0.1:
                     v = None
                 entries.insert(rng.randint(0, len(entries)), [k, v])
@@ -685,7 +869,12 @@ def gen_nest(rng, force_malformed=None):
     if defect == "empty":
         d = {"entries": [], "ckind": "missing", "kids": [], "cpos": 0}
     lab = f"nest/{'malformed/' + defect if defect else 'shared' if shared else 'valid'}/{shape}/{pool_name}/{name_key}-{child_key}"
-    return lab, {"kind": "nest", "name_key": name_key, "child_key": child_key, "dict": d}
+    case = {"kind": "nest", "name_key": name_key, "child_key": child_key, "dict": d}
+    if rng.random() < 0.3:
+        case["node_type"] = "custom"
+    if rng.random() < 0.3:
+        case["keys_explicit"] = True
+    return lab, case
 
 
 def _share_template(rng, d, name_key):
@@ -726,16 +915,28 @@ def _share_template(rng, d, name_key):
 def gen_heap(rng):
     r = rng.random()
     n = rng.randint(1, 40) if r < 0.8 else rng.randint(1, 8)
-    style = rng.choice(["random", "random", "seq", "equal", "neg"])
+    style = rng.choice(["random", "seq", "equal", "neg", "zeros", "floats", "mixed"])
+    F = lambda x: ["f", repr(float(x))]                 # a float element (JSON keeps the case type-faithful)
     if style == "seq":
-        l = list(range(1, n + 1))
+        l = list(range(rng.choice([0, 1]), n + 1))[:n]
     elif style == "equal":
-        l = [rng.randint(0, 9)] * n
+        l = [rng.choice([0, 0, rng.randint(0, 9)])] * n
     elif style == "neg":
         l = [rng.randint(-50, 5) for _ in range(n)]
+    elif style == "zeros":
+        l = [rng.choice([0, 0, 0, 1, -1, 2]) for _ in range(n)]
+    elif style == "floats":
+        l = [F(rng.choice([0.0, 0.5, 2.5, -1.5, 3.0, 7.25, -0.5])) for _ in range(n)]
+    elif style == "mixed":
+        l = [rng.choice([0, F(0.0), 1, F(1.0), F(2.5), -3, F(-3.5), 4]) for _ in range(n)]
     else:
         l = [rng.randint(0, 99) for _ in range(n)]
-    return f"heap/{style}/{'len>=16' if n >= 16 else 'len<16'}", {"kind": "heap", "list": l}
+    case = {"kind": "heap", "list": l}
+    if rng.random() < 0.25:
+        case["as_tuple"] = True
+    if rng.random() < 0.3:
+        case["node_type"] = "custom"
+    return f"heap/{style}/{'len>=16' if n >= 16 else 'len<16'}", case
 
 
 def corpus(prop):
@@ -773,6 +974,11 @@ def corpus(prop):
                                         ctypes={"age (years)": "int", "class": "str"})),
         ("ambiguous-repeated-index-labels", dict(rel([["b", "a", {}], ["c", "a", {}], ["x", "b", {}], ["y", "x", {}],
                                                       ["x", "c", {}], ["z", "c", {}]]), index=[0, 1, 2, 3, 0, 2])),
+        ("F12-root-row-parent-nan", dict(rel([["a", None, {"age": 1}], ["b", "a", {"age": 2}]], ["age"]),
+                                         nulls=["nan", "none"])),
+        ("F12-root-row-parent-NA-default-dtype", dict(rel([["a", None, {}], ["b", "a", {}], ["c", "a", {}]]),
+                                                      nulls=["na", "none", "none"], dtype="default")),
+        ("F12-list-with-root-row", rel([["a", None, {}], ["b", "a", {}], ["c", "b", {}]])),
         ("F9-repeated-labels-on-siblings", dict(rel([["b", "a", {}], ["c", "a", {}], ["d", "b", {}], ["e", "b", {}]]),
                                                 index=[0, 0, 1, 1])),
         ("F9-constant-label-with-root-row", dict(rel([["a", None, {"age": 1}], ["b", "a", {"age": 2}],
@@ -823,7 +1029,7 @@ def generate(prop, rng, tier):
             for combo in itertools.product(prs, repeat=k):
                 rows = [[c, p, {}] for c, p in combo]
                 yield "rel/exhaustive", {"kind": "rel", "allow_dup": False, "rows": rows, "cols": [],
-                                         "entries": ["polars"] if any(p is None for _, p in combo) else ["list", "polars"]}
+                                         "entries": ["list", "polars"]}
 
 
 # ---------------------------------------------------------------------------------------------
@@ -839,6 +1045,8 @@ def shrink_candidates(prop, case):
             c["rows"] = rows[:i] + rows[i + 1:]
             if case.get("index") is not None:
                 c["index"] = case["index"][:i] + case["index"][i + 1:]
+            if case.get("nulls"):
+                c["nulls"] = case["nulls"][:i] + case["nulls"][i + 1:]
             c["entries"] = [e for e in case["entries"] if e in entries_for(c["rows"])]
             if c["entries"]:
                 yield c
@@ -860,8 +1068,10 @@ def shrink_candidates(prop, case):
     elif k == "heap":
         l = case["list"]
         for n in range(len(l) - 1, 0, -1):
-            yield {"kind": "heap", "list": l[:n]}
+            yield dict(case, list=l[:n])
         yield {"kind": "heap", "list": list(range(len(l)))}
+        if case.get("as_tuple") or case.get("node_type"):
+            yield {"kind": "heap", "list": l}
     elif k == "nest":
         def variants(d):
             for i in range(len(d["kids"])):
@@ -925,10 +1135,20 @@ def rule(prop):
             "parentheses, keywords, leading underscore / digit); about 40 % of the pandas frames carry non-default row "
             "labels (concatenated pieces = repeated labels incl. on rows with the same parent or child, shuffled, strings, "
             "one constant label; F9).  "
-            "Left out for environment reasons: rows with an empty parent through list_to_tree_by_relation (it builds a "
-            "default-dtype DataFrame; pandas 3 turns None into NaN and the pinned bigtree then reports two roots - the "
-            "repository's own test_list_to_tree_by_relation_empty_parent fails the same way); DataFrames are built with "
-            "dtype=object for the same reason.  "
+            "Argument forms and options varied on the same rows: relations as list of tuples / list of lists / tuple of "
+            "tuples; child_col / parent_col named explicitly with the columns in any order, or inferred by position, under "
+            "several column names (incl. child column called 'parent' or 'p'); attribute_cols as a proper subset (the other "
+            "columns must be ignored); allow_duplicates omitted / False / True (also on valid lists); node_type omitted or a "
+            "custom subclass; pandas frames with dtype=object or pandas' own inference; attribute values 0, '', False, None, "
+            "bool columns; heap lists of ints, floats, 0 / 0.0, negative and repeated values as list or tuple (elements are "
+            "compared through type-and-value codes, node.name = str(x) and node.val = int(x) are checked in the runner); "
+            "nested dictionaries with falsy attribute values, keys passed explicitly or by default.  Checked by the runner "
+            "on every call (a failure is reported as a disagreement with its text): every result node has exactly the "
+            "requested class, the returned node is the root, child.parent is the parent, a second call with the same "
+            "argument objects gives the same outcome, and the caller's list / DataFrame / polars frame / heap list is "
+            "unchanged (values, column order, labels, dtypes).  "
+            "Empty parents are spelled None, NaN or pd.NA (per row) for the list and pandas entry points, in object and "
+            "inferred-dtype frames (F12).  "
             "non-trivial = accepted tree with >= 3 nodes, or a refused input with >= 2 rows (relations); >= 3 nodes or "
             "refused (nested); >= 3 elements (heap); distinct by canonical JSON hash")
 
@@ -941,6 +1161,16 @@ def partial_clauses(prop):
     return [
         "pandas / polars / list entry points are one model function on a row list; the frame glue is covered by the "
         "correspondence only",
+        "deliberately not compared: the exception class and message of a refusal (only accepted / refused; the property "
+        "says 'refused'); the order and int-vs-integral-float representation of node attributes (attributes are compared as "
+        "a key -> value map, 2.0 folds to 2); anything about nodes beyond name, class, links and public attributes (sep, "
+        "private fields)",
+        "deliberately not generated: polars frames with inferred instead of declared "
+        "column types; generators as relation lists (the function needs len()); names that are not str (the only "
+        "Unmodelled domain of the nested-dict model: never generated, 0 skipped cases per run); attribute columns called "
+        "name / parent / children / sep (they would feed Node's constructor); reachable cycles only 6 cases per quick "
+        "run (RecursionError takes ~0.5 s each); BinaryNode subclasses other than a plain subclass; heap lists holding "
+        "non-numbers",
     ]
 
 
